@@ -130,9 +130,19 @@ def r07_1(ctx, g):
     # reader: overlap parsed as int of all but the last character; tags = columns 7..; all five link columns passed in order
     rg = g.read_graph
     call = [c for c in walk_own(rg.node) if isinstance(c, ast.Call) and isinstance(c.func, ast.Attribute) and c.func.attr == "add_edge"]
-    ok_r = len(call) == 1 and norm(call[0]).replace(" ", "") in ("self.add_edge(*e,e_tags)",)
-    sl = [st for st in walk_own(rg.node) if isinstance(st, ast.Assign) and norm(st.targets[0]) == "e" and isinstance(st.value, ast.Subscript) and isinstance(st.value.slice, ast.Slice)]
-    ok_r = ok_r and any(norm(s.value) == "e[1:6]" for s in sl)
+    ok_r = False
+    if len(call) == 1 and len(call[0].args) == 2 and isinstance(call[0].args[0], ast.Starred) and isinstance(call[0].args[0].value, ast.Name):
+        ev_ = call[0].args[0].value.id
+        sl = [st for st in walk_own(rg.node) if isinstance(st, ast.Assign) and norm(st.targets[0]) == ev_ and isinstance(st.value, ast.Subscript) and isinstance(st.value.slice, ast.Slice)]
+        tags_v = norm(call[0].args[1])
+        tg = [st for st in walk_own(rg.node) if isinstance(st, ast.Assign) and norm(st.targets[0]) == tags_v and isinstance(st.value, ast.Subscript) and isinstance(st.value.slice, ast.Slice)]
+        if len(sl) == 1 and tg:
+            s0 = sl[0].value
+            base = norm(s0.value)
+            ok_r = const_value(s0.slice.lower) == 1 and const_value(s0.slice.upper) == 6 and s0.slice.step is None and norm(tg[0].value) == f"{base}[6:]"
+            # the base is the tab-split L line
+            bd = [st for st in walk_own(rg.node) if isinstance(st, ast.Assign) and norm(st.targets[0]) == base and ".split('\\t')" in norm(st.value)]
+            ok_r = ok_r and bool(bd)
     ctx.check(ok_r, "R07.1", rg.where(), "the reader passes (node1, orientation1, node2, orientation2, overlap) of the L line, in file order, to add_edge", key_of(rg, "reader-args"))
 
 
@@ -161,28 +171,63 @@ def r07_2(ctx, g):
         # every S line: one write of to_gfa_line + newline
         w = [c for c in ast.walk(s_loops[0]) if isinstance(c, ast.Call) and isinstance(c.func, ast.Attribute) and c.func.attr == "write"]
         ctx.check(len(w) == 1, "R07.2", wf.where(s_loops[0]), "one S line per node", key_of(wf, "one-S-per-node"))
-    # concatenation in run_order_gfa
+    # concatenation in run_order_gfa: an S pass over all per-chromosome files, then an L pass
     m = oc.build(ctx, "R07.2")
     run = m.run
-    withs = [w for w in walk_own(run.node) if isinstance(w, ast.With) and any(isinstance(c, ast.Call) and isinstance(c.func, ast.Attribute) and c.func.attr == "startswith" for c in ast.walk(w))]
-    okc = False
-    if withs:
-        w = withs[0]
-        passes = [l for l in w.body if isinstance(l, ast.For)]
-        lits = []
-        for l in passes:
-            for c in ast.walk(l):
-                if isinstance(c, ast.Call) and isinstance(c.func, ast.Attribute) and c.func.attr == "startswith":
-                    lits.append(const_value(c.args[0]))
-        okc = lits[:2] == ["S", "L"] and len(lits) == 2 and len(passes) >= 2 and len({norm(l.iter) for l in passes[:2]}) == 1
-        # each pass writes directly (no buffering across files) and tests only its own letter
-        for l, letter in zip(passes[:2], "SL"):
-            tests = [const_value(c.args[0]) for c in ast.walk(l) if isinstance(c, ast.Call) and isinstance(c.func, ast.Attribute) and c.func.attr == "startswith"]
-            writes = [c for c in ast.walk(l) if isinstance(c, ast.Call) and isinstance(c.func, ast.Attribute) and c.func.attr in ("write", "writelines")]
-            okc = okc and tests == [letter] and len(writes) == 1 and writes[0].func.attr == "write"
-        buffered = [c for c in ast.walk(w) if isinstance(c, ast.Call) and isinstance(c.func, ast.Attribute) and c.func.attr in ("writelines", "extend")]
-        okc = okc and not buffered
-    ctx.check(okc, "R07.2", run.where(), "the complete file copies the S lines of every per-chromosome file first and the L lines afterwards, each pass filtering on its own record letter", key_of(run, "concat-S-then-L"))
+    repo = ctx.repo
+
+    def pass_of(node):
+        """('S'|'L'|other letter, files expr) if `node` copies the lines with one record letter of every file of a list
+        to the output, directly (for f in FILES: with open(f): for l: if l.startswith(X): out.write(l)) or through a
+        helper with that shape called as helper(FILES, out, X); None otherwise."""
+        if isinstance(node, ast.For):
+            tests = [c for c in ast.walk(node) if isinstance(c, ast.Call) and isinstance(c.func, ast.Attribute) and c.func.attr == "startswith"]
+            writes = [c for c in ast.walk(node) if isinstance(c, ast.Call) and isinstance(c.func, ast.Attribute) and c.func.attr in ("write", "writelines", "append", "extend")]
+            if len(tests) == 1 and len(writes) == 1 and writes[0].func.attr == "write" and isinstance(tests[0].args[0], ast.Constant):
+                return (tests[0].args[0].value, norm(node.iter))
+            return None
+        if isinstance(node, ast.Expr) and isinstance(node.value, ast.Call):
+            h = repo.resolve_call(run, node.value)
+            if h is not None and len(h.node.body) >= 1:
+                loops = [x for x in h.node.body if isinstance(x, ast.For)]
+                if len(loops) == 1:
+                    inner = pass_of_helper(h, loops[0])
+                    if inner is not None:
+                        files_p, letter_p = inner
+                        params = h.params
+                        args = {p_: a for p_, a in zip(params, node.value.args)}
+                        for k in node.value.keywords:
+                            args[k.arg] = k.value
+                        if files_p in args and letter_p in args and isinstance(args[letter_p], ast.Constant):
+                            return (args[letter_p].value, norm(args[files_p]))
+        return None
+
+    def pass_of_helper(h, loop):
+        tests = [c for c in ast.walk(loop) if isinstance(c, ast.Call) and isinstance(c.func, ast.Attribute) and c.func.attr == "startswith"]
+        writes = [c for c in ast.walk(loop) if isinstance(c, ast.Call) and isinstance(c.func, ast.Attribute) and c.func.attr in ("write", "writelines", "append", "extend")]
+        if len(tests) == 1 and len(writes) == 1 and writes[0].func.attr == "write" and isinstance(tests[0].args[0], ast.Name) and tests[0].args[0].id in h.params and isinstance(loop.iter, ast.Name) and loop.iter.id in h.params:
+            return (loop.iter.id, tests[0].args[0].id)
+        return None
+
+    withs = [w for w in walk_own(run.node) if isinstance(w, ast.With) and any(pass_of(st) is not None and pass_of(st)[0] in ("S", "L") for st in w.body)]
+    if not withs:
+        # not two recognisable passes: is there a single loop over the files that writes S lines and, inside the same
+        # per-file loop, also writes L lines (directly or from a buffer)?  Then L lines precede the S lines of later files.
+        for w0 in [x for x in walk_own(run.node) if isinstance(x, ast.With)]:
+            for l0 in [x for x in w0.body if isinstance(x, ast.For)]:
+                lets = {const_value(c.args[0]) for c in ast.walk(l0) if isinstance(c, ast.Call) and isinstance(c.func, ast.Attribute) and c.func.attr == "startswith" and c.args}
+                outs = [c for c in ast.walk(l0) if isinstance(c, ast.Call) and isinstance(c.func, ast.Attribute) and c.func.attr in ("write", "writelines")]
+                if {"S", "L"} <= lets and len(outs) >= 2:
+                    ctx.violated("R07.2", run.where(l0), "one loop over the per-chromosome files writes both S lines and L lines: the L lines of one chromosome precede the S lines of the next (and a buffer that is not emptied repeats links)", key_of(run, "concat-single-pass"))
+                    return
+        raise AnalysisError("R07.2", run.where(), "cannot find the concatenation of the per-chromosome GFA files (S pass / L pass)")
+    w = withs[0]
+    seq = [pass_of(st) for st in w.body]
+    letters = [x[0] for x in seq if x is not None and x[0] in ("S", "L")]
+    files = {x[1] for x in seq if x is not None and x[0] in ("S", "L")}
+    unknown_writes = [st for st, x in zip(w.body, seq) if x is None and any(isinstance(c, ast.Call) and isinstance(c.func, ast.Attribute) and c.func.attr in ("write", "writelines") for c in ast.walk(st))]
+    okc = letters == ["S", "L"] and len(files) == 1 and not unknown_writes
+    ctx.check(okc, "R07.2", run.where(w), "the complete file copies the S lines of every per-chromosome file first and the L lines afterwards, each pass filtering on its own record letter and writing directly", key_of(run, f"concat:{letters}:{sorted(files)}:{len(unknown_writes)}"), passes=letters)
 
 
 def r07_3(ctx, g):
@@ -331,35 +376,52 @@ def r07_9(ctx, g):
     f = repo.func("gaftools.gfa", "Node.to_gfa_line", "R07.9")
     ctx.analysed_func(f)
     ret = [r for r in walk_own(f.node) if isinstance(r, ast.Return)]
-    ok = False
+    ok = None
     if ret and isinstance(ret[-1].value, ast.Call) and norm(ret[-1].value.func) == "'\\t'.join":
         a = ret[-1].value.args[0]
-        if isinstance(a, ast.BinOp) and isinstance(a.left, ast.List):
+        if isinstance(a, ast.BinOp) and isinstance(a.left, ast.List) and isinstance(a.right, ast.Name):
             e = [norm(x) for x in a.left.elts]
             ok = e[0] == "'S'" and e[1] == "self.id" and len(e) == 3
-            tags = norm(a.right)
+            tags = a.right.id
+            elem = None
+            kv = None
             loop = [l for l in walk_own(f.node) if isinstance(l, ast.For) and "self.tags.items()" in norm(l.iter)]
             ap = [c for l in loop for c in ast.walk(l) if isinstance(c, ast.Call) and isinstance(c.func, ast.Attribute) and c.func.attr == "append" and norm(c.func.value) == tags]
-            if ap:
-                parts = tmpl.of_expr(ap[0].args[0])
-                k, v = [norm(x) for x in loop[0].target.elts]
-                ok = ok and tmpl.show(parts) == f"{{{k}}}:{{{v}[0]}}:{{{v}[1]}}" and not any(isinstance(x, (ast.If, ast.Continue)) for x in ast.walk(loop[0]))
+            comp = [st.value for st in walk_own(f.node) if isinstance(st, ast.Assign) and norm(st.targets[0]) == tags and isinstance(st.value, ast.ListComp)]
+            if ap and not any(isinstance(x, (ast.If, ast.Continue)) for x in ast.walk(loop[0])):
+                elem, kv = ap[0].args[0], [norm(x) for x in loop[0].target.elts]
+            elif comp and len(comp[0].generators) == 1 and not comp[0].generators[0].ifs and norm(comp[0].generators[0].iter) == "self.tags.items()":
+                elem, kv = comp[0].elt, [norm(x) for x in comp[0].generators[0].target.elts]
+            if elem is None:
+                ok = None
             else:
-                ok = False
+                parts = tmpl.of_expr(elem)
+                k, v = kv
+                ok = ok and tmpl.show(parts) == f"{{{k}}}:{{{v}[0]}}:{{{v}[1]}}"
+    if ok is None:
+        raise AnalysisError("R07.9", f.where(), "S-line serialiser is not of a recognised shape ('\\t'.join(['S', id, seq] + tags))")
     ctx.check(ok, "R07.9", f.where(), "an S line is 'S', the id, the sequence (or '*'), then every stored tag as NAME:TYPE:VALUE in stored order", key_of(f, "S-line"))
-    # the sequence column: '*' exactly when without sequence / empty
+    # the sequence column: '*' exactly when without sequence / empty  (worlds over with_seq x seq-is-empty)
+    from ..core import bool_table
+
     paths = enum_paths(f.node.body, rule="R07.9", where=f.where())
+    A_W, A_E = "with_seq", "self.seq == ''"
     bad = None
     for p in paths:
         seqs = [norm(e.node.value) for e in p.events if e.kind == "stmt" and isinstance(e.node, ast.Assign) and norm(e.node.targets[0]) == "seq"]
         if not seqs:
             bad = (p, "sequence column not set")
             continue
-        with_seq = any(canon_test(t, pol) == ("with_seq", True) for t, pol in p.tests())
-        empty = any(canon_test(t, pol) == ("self.seq == ''", True) for t, pol in p.tests())
-        want = "self.seq" if (with_seq and not empty) else "'*'"
-        if seqs[-1] != want:
-            bad = (p, f"sequence column is {seqs[-1]}, expected {want}")
+        worlds = [(w, em) for w in (True, False) for em in (True, False)]
+        for t, pol in p.tests():
+            tb = bool_table(t, [A_W, A_E])
+            if tb is None:
+                continue
+            worlds = [wd for wd in worlds if tb[wd] == pol]
+        for w, em in worlds:
+            want = "self.seq" if (w and not em) else "'*'"
+            if seqs[-1] != want:
+                bad = (p, f"with_seq={w}, empty sequence={em}: sequence column is {seqs[-1]}, expected {want}")
     ctx.check(bad is None, "R07.9", f.where(), "the sequence column is the stored sequence, or '*' when there is none", key_of(f, f"seq-column:{bad[1] if bad else ''}"))
     # order_gfa loads sequences exactly when --with-sequence
     m = oc.build(ctx, "R07.9")
